@@ -208,28 +208,39 @@ example : openCommand [120, 32, 34, 97, 32, 98, 34] 5 [([75], [118])] =
      end-of-file, and every byte given to `write` arrives on the child's stdin"
   Proved:
    * `process_delivery_partial` -- what `open`/`start` hand to execvpe (file, argv vector, environment) and
-     which pipes they request;
+     which pipes they request (argument and environment Strings are meant NUL-free: execvpe receives pointers to them);
    * `open_pipe_ends_exact` -- after the pipe/vfork/dup2/close sequence of `open()` the parent holds exactly
      its ends of the requested pipes and the child exactly the other ends as descriptors 0/1/2 (so end-of-file
      can arrive), over a descriptor-table model of pipe/dup2/close/vfork;
-   * `pipe_protocol_delivers` -- over an abstract pipe model (bounded FIFO, partial reads and writes, end-of-file
+   * `pipe_protocol_delivers_in_pipe_model`, `pipe_protocol_total_in_pipe_model` -- over an abstract pipe model (bounded FIFO, partial reads and writes, end-of-file
      when no write end is left) the protocol write-all / close stdin / read both streams to end-of-file / join
      against a child that reads its input and then writes its outputs never deadlocks, always ends, and ends
      with all three byte streams intact and the exit code delivered -- for every capacity >= 1, all payloads,
      all chunkings and all schedules;
-   * `join_returns_exit_code` -- over the same pipe model with `join()` as the action list it is coded as (waitpid, then the
-     closes): a child that still writes to its redirected streams after join() was entered is never hit by SIGPIPE and
-     join() stores its exit code, for all outputs that fit the pipes and all schedules.
+   * `join_returns_exit_code_in_pipe_model` -- over the same pipe model with `join()` as the action list it is coded as (close
+     the stdin write end, waitpid, close the read ends): a child that still reads its input to the end and then writes to its
+     redirected streams after join() was entered is never hit by SIGPIPE and join() stores its exit code, for all outputs
+     that fit the pipes and all schedules (outputs larger than the pipes with nobody reading block for ever: caller's protocol);
+   * `coded_calls_are_protocol_steps`, `coded_run_delivers_in_pipe_model` -- the parent's and the child's moves derived from
+     the API calls as coded are steps of the protocol system.
+  All theorems named `*_in_pipe_model` are PROTOCOL-LEVEL: one usage protocol (the harness's) against one child shape
+  (the helper's), in an abstract kernel; they are assumption-level evidence, not a proof about Linux.
   Missing (and not provable here): that Linux behaves like these two models, and that execvpe hands argv/envp
   unchanged to the new program.  That is what the correspondence streams `run`, `io` (sizes around the real pipe
   capacity), `exit`, `late`, `sig`, `killbusy`, `execfail`, `p`, `killtest`, `fdtable` (descriptors of parent and child inspected through /proc) test.
 -/
-theorem process_delivery_partial (executable : Str) (args : List Str) (streams : Nat) (env : List (Str × Str)) :
+theorem process_delivery_partial (executable : Str) (args : List Str) (line : Str) (hl : ∀ c ∈ line, c ≠ 0)
+    (streams : Nat) (env : List (Str × Str)) :
     openList executable args streams env =
       some { file := executable, argv := executable :: args.drop 1,
              env := if env = [] then none else some (env.map (fun kv => kv.1 ++ [61] ++ kv.2)),
+             pipes := streams % 8 } ∧
+    openCommand line streams env =
+      some { file := (tokenize line).headD [],
+             argv := if tokenize line = [] then [[]] else tokenize line,
+             env := if env = [] then none else some (env.map (fun kv => kv.1 ++ [61] ++ kv.2)),
              pipes := streams % 8 } :=
-  argv_env_exact executable args streams env
+  ⟨argv_env_exact executable args streams env, argv_env_exact_command line hl streams env⟩
 
 open Kernel in
 /-- descriptor discipline of `open()`: for every redirection mask, every base table without ends of the new
@@ -275,6 +286,29 @@ theorem pipe_protocol_delivers_in_pipe_model (cap : Nat) (hcap : 0 < cap) (P O E
     (∀ s', Step s s' → s'.measure < s.measure) ∧
     (s.pPhase = .joined → s.gotIn = P ∧ s.gotOut = O ∧ s.gotErr = E ∧ s.code = some c) :=
   ⟨progress (Inv.reach h) hcap, fun _ hs => step_decreases hs, delivered (Inv.reach h)⟩
+
+open Kernel in
+/-- tie of the protocol system to the API calls as coded: the moves of the parent derived from `Process::write`
+    (one `::write`: what fits, blocking on a full pipe), `close(stdinStream)`, `Process::read(buf, len, streams)`
+    (select; stdout before stderr; 0 = end-of-file) and `join` in the order the harness calls them, and the moves of
+    the `@io` child derived from its `read`/`write` loops (`parentNext`, `childNext`, buffer size `len`), are steps
+    of the protocol system -- so everything proved for all schedules of `Step` holds for the coded pair -/
+theorem coded_calls_are_protocol_steps (len : Nat) (hlen : 0 < len) (s s' : Sys) :
+    (parentNext len s = some s' → Step s s') ∧ (childNext len s = some s' → Step s s') :=
+  ⟨parentNext_step hlen, childNext_step hlen⟩
+
+open Kernel in
+/-- PROTOCOL-LEVEL: whatever order a scheduler lets the coded parent and the coded child move in (`sched`, blocked
+    moves are skipped), once the parent's `join` has returned everything is delivered -/
+theorem coded_run_delivers_in_pipe_model (cap len : Nat) (hlen : 0 < len) (P O E : List Nat) (c : Nat) (sched : List Bool) :
+    let s := runCoded len sched (Sys.init cap P O E c)
+    s.pPhase = .joined → s.gotIn = P ∧ s.gotOut = O ∧ s.gotErr = E ∧ s.code = some c := by
+  intro s
+  exact delivered (Inv.reach (runCoded_reach hlen sched .init))
+
+-- a concrete run: capacity 2, buffer 3, strictly alternating scheduler, 60 moves: join has returned
+example : (Kernel.runCoded 3 ((List.range 60).map (· % 2 == 0)) (Kernel.Sys.init 2 [1, 2, 3, 4, 5] [6, 7, 8] [9] 4)).pPhase = .joined := by
+  decide
 
 open Kernel in
 /-- PROTOCOL-LEVEL (abstract pipe model): total correctness in the pipe model: a run of `n` steps has `n <= 2|P| + 2|O| + 2|E| + 7`, and a state in
@@ -361,7 +395,7 @@ example : Kernel.Reach (Kernel.Sys.init 1 [7] [] [] 0)
     { Kernel.Sys.init 1 [7] [] [] 0 with inQ := [] ++ [7].take 1, toSend := [7].drop 1 } :=
   .step .init (Kernel.Step.pWrite _ 1 rfl (by decide) (by decide) (by decide))
 
-/-! ### environment of the own process -/
+/-! ### environment of the own process (auxiliary: properties of a hand abstraction, not evidence for the delivery clauses) -/
 
 /-- set / remove / look up: a variable that was set to a non-empty value is read back, a variable
     that was removed (empty value) yields the default and the removal reports success, other
@@ -392,7 +426,8 @@ theorem env_invalid_name (e : PEnv) (k v : Str) (hk : validName k = false) :
 example : getEnvironmentVariable (setEnvironmentVariable (setEnvironmentVariable [] [65] [49]).1 [65] []).1 [65] [100] = [100] := by
   decide
 
-/-! ### the Process object: pid and descriptors with 0 = closed -/
+/-! ### the Process object: pid and descriptors with 0 = closed (auxiliary: a 4-flag abstraction; kernel calls assumed to
+    succeed, the waitpid-failure path of join is not represented) -/
 
 /-- after every history of calls on a Process object: when no child is running (pid = 0) no pipe
     descriptor is held any more -/
